@@ -75,6 +75,20 @@ def decFrames (w : String) : Option (List Str) := do
 def get (st : St) (r : Nat) : Option E := (st.find? (fun p => p.1 == r)).map (·.2)
 def set (st : St) (r : Nat) (e : E) : St := (r, e) :: st.filter (fun p => p.1 != r)
 
+/-- `E:<k><hex of register number>` with k ∈ w j v k: the error handed to Convert* is a foreign
+error WRAPPING the gerror value in that register — `%w` (w, v) or `errors.Join` (j, k), around the
+extension value (w, j) or around its plain-GError twin (v, k).  Returns the kind and the register. -/
+def decWrap (w : String) : Option (Char × Nat) :=
+  match (field "E:" w).map String.toList with
+  | some (k :: hex) =>
+    if k == 'w' || k == 'j' || k == 'v' || k == 'k' then
+      (dec (String.ofList hex)).bind (fun s => (String.ofList s).toNat?) |>.map (fun n => (k, n))
+    else none
+  | _ => none
+
+def showVals (d : ExtDef) (x : X) : String :=
+  "v=" ++ ",".intercalate (d.map (fun f => enc (x.val f.name)))
+
 def handle (st : St) (ws : List String) : St × String :=
   match ws with
   | ["new", r, n, m, s] =>
@@ -107,16 +121,22 @@ def handle (st : St) (ws : List String) : St × String :=
       | _, some [_], _ => (st, "bad-utf8")
       | _, _, _ => (st, "bad-op")
     | _, _, _, _ => (st, "bad-op")
-  | ["call", d, r, m, _site, f, p, s, _elems] =>
+  | ["call", d, r, m, _site, f, p, s, elems] =>
     match d.toNat?, r.toNat?, Method.ofGoName m, field "F:" f, field "P:" p, field "S:" s with
     | some d, some r, some m, some f, some p, some s =>
-      match get st r, dec f, decList p, decFrames s with
-      | some e, some f, some p, some (top :: rest) =>
-        let res := step e { m := m, params := p, formatted := f, frames := ⟨top, rest⟩ }
+      -- Convert* of a foreign error wrapping the (stack-free) gerror value of a register: its text
+      let wrapped : Option (Option Str) := match decWrap elems with
+        | none => some none
+        | some (k, wr) => (get st wr).map (fun inner =>
+            some (if k == 'w' || k == 'v' then wrapText (baseError inner) else joinText (baseError inner)))
+      match get st r, dec f, decList p, decFrames s, wrapped with
+      | _, _, _, _, none => (st, "bad-reg")
+      | some e, some f, some p, some (top :: rest), some wt =>
+        let res := step e { m := m, params := p, formatted := wt.getD f, frames := ⟨top, rest⟩ }
         (set st d res, obsE res)
-      | none, _, _, _ => (st, "bad-reg")
-      | _, _, _, some [] => (st, "bad-op")
-      | _, _, _, _ => (st, "bad-utf8")
+      | none, _, _, _, _ => (st, "bad-reg")
+      | _, _, _, some [], _ => (st, "bad-op")
+      | _, _, _, _, _ => (st, "bad-utf8")
     | _, _, _, _, _, _ => (st, "bad-op")
   | ["conv", d, r, m, a] =>
     match d.toNat?, r.toNat?, Method.ofGoName m, a.toNat? with
@@ -147,7 +167,7 @@ def handle (st : St) (ws : List String) : St × String :=
 /-! ### `gx …`: generated extension types (C09)
 
 ```
-gx def <id> <name>:<printAs>:<print 0|1>:<clone 0|1>:<zero>:<kind>:<tag>,…    (`-` = no extra fields)           -> ok
+gx def <id> <name>:<tag name|~>:<options|->:<embedded 0|1>:<zero>:<kind>:<tag>,…    (`-` = no extra fields)           -> ok
 gx new <reg> <id> <name> <msg> <src> V:<s>,… I:<n>,…   extension factory + plain GError with the same base -> ok
 gx call <dst> <reg> <Method> <site> F:<s> P:<s>,.. S:<frames> E:<elems>
                                                    same call on both -> <obs ext> | <obs base> | v=<s>,…
@@ -161,17 +181,18 @@ structure XSt where
   defs : List (Nat × ExtDef) := []
   regs : List (Nat × (ExtDef × X)) := []
 
+/-- `<name>:<tag name | ~>:<options p,c in tag order | ->:<embedded 0|1>:<zero>:<kind>:<raw tag>` — the
+field as the generator's parser sees it; `createField` (the model) turns it into a `FieldDef` -/
 def decField (w : String) : Option FieldDef :=
   match w.splitOn ":" with
-  | [n, p, pr, cl, z, _kind, _tag] => do
+  | [n, t, o, emb, z, _kind, _tag] => do
     let n ← dec n
-    let p ← dec p
+    let t ← if t == "~" then pure none else (dec t).map some
     let z ← dec z
-    pure { name := n, printAs := p, print := pr == "1", clone := cl == "1", zero := z }
+    let opts := if o == "-" then [] else o.toList.filterMap (fun c =>
+      if c == 'p' then some "print".toList else if c == 'c' then some "clone".toList else none)
+    pure (createField { name := n, embedded := emb == "1", tagName := t, opts := opts, zero := z })
   | _ => none
-
-def showVals (d : ExtDef) (x : X) : String :=
-  "v=" ++ ",".intercalate (d.map (fun f => enc (x.val f.name)))
 
 def handleX (st : XSt) (ws : List String) : XSt × String :=
   match ws with
@@ -190,18 +211,27 @@ def handleX (st : XSt) (ws : List String) : XSt × String :=
         ({ st with regs := (r, (d, x)) :: st.regs.filter (fun p => p.1 != r) }, "ok")
       | none => (st, "bad-def")
     | _, _, _, _, _, _ => (st, "bad-op")
-  | ["call", dst, r, m, _site, f, p, s, _elems] =>
+  | ["call", dst, r, m, _site, f, p, s, elems] =>
     match dst.toNat?, r.toNat?, Method.ofGoName m, field "F:" f, field "P:" p, field "S:" s with
     | some dst, some r, some m, some f, some p, some s =>
-      match st.regs.find? (fun q => q.1 == r), dec f, decList p, decFrames s with
-      | some (_, (d, x)), some f, some p, some (top :: rest) =>
-        let c : Call := { m := m, params := p, formatted := f, frames := ⟨top, rest⟩ }
+      -- a wrapped gerror value: its text is computed here, from the model of the wrapped value
+      let wrapped : Option (Option Str) := match decWrap elems with
+        | none => some none
+        | some (k, wr) => match st.regs.find? (fun q => q.1 == wr) with
+          | none => none
+          | some (_, (wd, wx)) =>
+            let inner := if k == 'w' || k == 'j' then extError wd wx else baseError wx.base
+            some (some (if k == 'w' || k == 'v' then wrapText inner else joinText inner))
+      match st.regs.find? (fun q => q.1 == r), dec f, decList p, decFrames s, wrapped with
+      | _, _, _, _, none => (st, "bad-reg")
+      | some (_, (d, x)), some f, some p, some (top :: rest), some wt =>
+        let c : Call := { m := m, params := p, formatted := wt.getD f, frames := ⟨top, rest⟩ }
         let b := step x.base c
         let res := toPrimary d x b
         ({ st with regs := (dst, (d, res)) :: st.regs.filter (fun q => q.1 != dst) },
           s!"{obs res.base} | {obs b} | {showVals d res}")
-      | none, _, _, _ => (st, "bad-reg")
-      | _, _, _, _ => (st, "bad-op")
+      | none, _, _, _, _ => (st, "bad-reg")
+      | _, _, _, _, _ => (st, "bad-op")
     | _, _, _, _, _, _ => (st, "bad-op")
   | ["err", r] =>
     match r.toNat? with
